@@ -4,6 +4,7 @@ import Driver.Arith
 import Driver.Sig
 import Driver.Export
 import Driver.Schema
+import Driver.SchemaRows
 import Driver.Cli
 import Driver.Carve
 import Driver.SpecPage
@@ -18,6 +19,7 @@ def dispatch (toks : List String) : IO String := do
   | op :: _ =>
     let r : Option String ←
       if op.startsWith "export." then pure (Driver.Export.handle toks)
+      else if op == "ddl.row" || op == "ddl.schema" || op == "ddl.rowconsts" then pure (Driver.SchemaRows.handle toks)
       else if op.startsWith "ddl." || op == "spec.affinity" || op.startsWith "spec.ddl" then
         pure (Driver.Schema.handle toks)
       else if op.startsWith "sig." || op.startsWith "re." then
